@@ -259,6 +259,11 @@ func (w *worker) exec(sp *spec, quiet bool) (out outcome) {
 	c.Count("kind_" + sp.Kind)
 	c.Count("epoch_" + e.name)
 	c.Count("tmpl_" + sp.Tmpl)
+	if b := to.Bytes(); sp.Kind != "create" && pmsg == "" && new(big.Int).SetBytes(b).IsUint64() {
+		if n := new(big.Int).SetBytes(b).Uint64(); n >= 1 && n <= 8 && (n <= 4 || e.byz) {
+			c.Count(fmt.Sprintf("precompile_%d_called", n))
+		}
+	}
 
 	flush := func() {
 		for k, n := range o.counts {
@@ -444,7 +449,7 @@ func run(c *fw.Ctx) {
 		if t.needs != nil && !t.needs(e) {
 			e = epochs[[]string{"spring", "byzantium", "mainnet-window"}[cycle%3]]
 		}
-		sp := t.f(r, e)
+		sp := t.f(r, e, cycle/len(epochNames))
 		sp.Tmpl = t.name
 		finish(sp, r, e)
 		id := fmt.Sprintf("%s-%d", t.name, i)
